@@ -129,6 +129,22 @@ EXPECTED = {
 }
 
 
+def root_local(k, operand):
+    """the variable behind an operand: `x = x + 1` reads a temporary copy of x, `x += 1` reads x itself"""
+    if operand.place is None or operand.place.proj:
+        return None
+    l = operand.place.local
+    for _ in range(5):
+        if k.local_name(l):
+            return l
+        ds = k.assigns_to(l)
+        if len(ds) == 1 and getattr(ds[0][1], "rv", None) is not None and ds[0][1].rv.k == "use" and ds[0][1].rv.ops[0].place is not None and not ds[0][1].rv.ops[0].place.proj:
+            l = ds[0][1].rv.ops[0].place.local
+        else:
+            break
+    return l
+
+
 def kernel_features(prog, flows, k):
     fl = flows.of(k)
     f = {}
@@ -189,7 +205,7 @@ def kernel_features(prog, flows, k):
     for lb in loops:
         for s in k.stmts():
             if s.bb in lb and s.k == "assign" and s.rv.k == "binop" and s.rv.j["op"].startswith("Add") and s.rv.ops[1].is_const() and s.rv.ops[1].const_int() == 1:
-                base = s.rv.ops[0].place.local if s.rv.ops[0].place is not None else None
+                base = root_local(k, s.rv.ops[0])
                 if base is not None and k.local_name(base) and base != cursor and k.local_ty(base) == "i32":
                     row = base
                     carry = lb
@@ -201,7 +217,7 @@ def kernel_features(prog, flows, k):
     if carry and cursor is not None:
         ops = set()
         for s in k.stmts():
-            if s.bb in carry and s.k == "assign" and s.rv.k == "binop" and s.rv.ops[0].place is not None and s.rv.ops[0].place.local == cursor and not s.rv.ops[1].is_const():
+            if s.bb in carry and s.k == "assign" and s.rv.k == "binop" and s.rv.j["op"].replace("WithOverflow", "").replace("Unchecked", "") in ("Add", "Sub", "Mul", "Div", "Rem") and root_local(k, s.rv.ops[0]) == cursor and not s.rv.ops[1].is_const():
                 ops.add(s.rv.j["op"].replace("WithOverflow", ""))
         op = "/".join(sorted(ops)) if ops else None
     f["carry_cursor_op"] = op
